@@ -160,8 +160,8 @@ Feq = make_fcmp("feq", 0b010, False)
 Fle = make_fcmp("fle", 0b000, False)
 Flt = make_fcmp("flt", 0b001, False)
 Fne = make_fcmp("fne", 0b010, True)
-Fgt = make_fcmp("fgt", 0b000, True)
-Fge = make_fcmp("fge", 0b001, True)
+Fgt = make_fcmp("fgt", 0b001, True)
+Fge = make_fcmp("fge", 0b000, True)
 
 
 @rvfxisa.pattern("reg", "CONSTF32", size=2)
